@@ -1,4 +1,14 @@
 
+(** val implb : bool -> bool -> bool **)
+
+let implb b1 b2 =
+  if b1 then b2 else true
+
+(** val xorb : bool -> bool -> bool **)
+
+let xorb b1 b2 =
+  if b1 then if b2 then false else true else b2
+
 (** val negb : bool -> bool **)
 
 let negb = function
@@ -121,12 +131,14 @@ module Little =
   | D9 d0 -> D9 (succ_double d0)
  end
 
-(** val add : nat -> nat -> nat **)
-
-let rec add n0 m =
-  match n0 with
-  | O -> m
-  | S p -> S (add p m)
+module Coq__1 = struct
+ (** val add : nat -> nat -> nat **)
+ let rec add n0 m =
+   match n0 with
+   | O -> m
+   | S p -> S (add p m)
+end
+include Coq__1
 
 (** val mul : nat -> nat -> nat **)
 
@@ -134,6 +146,11 @@ let rec mul n0 m =
   match n0 with
   | O -> O
   | S p -> add m (mul p m)
+
+(** val eqb : bool -> bool -> bool **)
+
+let eqb b1 b2 =
+  if b1 then b2 else if b2 then false else true
 
 type positive =
 | XI of positive
@@ -225,6 +242,13 @@ module Pos =
        | XO q -> XO (succ q)
        | XH -> XI XH)
 
+  (** val pred_double : positive -> positive **)
+
+  let rec pred_double = function
+  | XI p -> XI (XO p)
+  | XO p -> XI (pred_double p)
+  | XH -> XH
+
   (** val mul : positive -> positive -> positive **)
 
   let rec mul x y =
@@ -232,6 +256,20 @@ module Pos =
     | XI p -> add y (XO (mul p y))
     | XO p -> XO (mul p y)
     | XH -> y
+
+  (** val iter : ('a1 -> 'a1) -> 'a1 -> positive -> 'a1 **)
+
+  let rec iter f x = function
+  | XI n' -> f (iter f (iter f x n') n')
+  | XO n' -> iter f (iter f x n') n'
+  | XH -> f x
+
+  (** val size : positive -> positive **)
+
+  let rec size = function
+  | XI p0 -> succ (size p0)
+  | XO p0 -> succ (size p0)
+  | XH -> XH
 
   (** val compare_cont : comparison -> positive -> positive -> comparison **)
 
@@ -269,6 +307,19 @@ module Pos =
     | XH -> (match q with
              | XH -> true
              | _ -> false)
+
+  (** val iter_op : ('a1 -> 'a1 -> 'a1) -> positive -> 'a1 -> 'a1 **)
+
+  let rec iter_op op p a =
+    match p with
+    | XI p0 -> op a (iter_op op p0 (op a a))
+    | XO p0 -> iter_op op p0 (op a a)
+    | XH -> a
+
+  (** val to_nat : positive -> nat **)
+
+  let to_nat x =
+    iter_op Coq__1.add x (S O)
 
   (** val of_succ_nat : nat -> positive **)
 
@@ -399,6 +450,13 @@ let rec flat_map f = function
 | [] -> []
 | x :: t -> app (f x) (flat_map f t)
 
+(** val fold_left : ('a1 -> 'a2 -> 'a1) -> 'a2 list -> 'a1 -> 'a1 **)
+
+let rec fold_left f l a0 =
+  match l with
+  | [] -> a0
+  | b :: t -> fold_left f t (f a0 b)
+
 (** val fold_right : ('a2 -> 'a1 -> 'a1) -> 'a1 -> 'a2 list -> 'a1 **)
 
 let rec fold_right f a0 = function
@@ -429,14 +487,143 @@ let rec find f = function
 | [] -> None
 | x :: tl -> if f x then Some x else find f tl
 
+(** val combine : 'a1 list -> 'a2 list -> ('a1 * 'a2) list **)
+
+let rec combine l l' =
+  match l with
+  | [] -> []
+  | x :: tl ->
+    (match l' with
+     | [] -> []
+     | y :: tl' -> (x, y) :: (combine tl tl'))
+
+(** val firstn : nat -> 'a1 list -> 'a1 list **)
+
+let rec firstn n0 l =
+  match n0 with
+  | O -> []
+  | S n1 -> (match l with
+             | [] -> []
+             | a :: l0 -> a :: (firstn n1 l0))
+
+(** val skipn : nat -> 'a1 list -> 'a1 list **)
+
+let rec skipn n0 l =
+  match n0 with
+  | O -> l
+  | S n1 -> (match l with
+             | [] -> []
+             | _ :: l0 -> skipn n1 l0)
+
+(** val repeat : 'a1 -> nat -> 'a1 list **)
+
+let rec repeat x = function
+| O -> []
+| S k -> x :: (repeat x k)
+
+(** val list_sum : nat list -> nat **)
+
+let list_sum l =
+  fold_right add O l
+
 module Z =
  struct
+  (** val double : z -> z **)
+
+  let double = function
+  | Z0 -> Z0
+  | Zpos p -> Zpos (XO p)
+  | Zneg p -> Zneg (XO p)
+
+  (** val succ_double : z -> z **)
+
+  let succ_double = function
+  | Z0 -> Zpos XH
+  | Zpos p -> Zpos (XI p)
+  | Zneg p -> Zneg (Pos.pred_double p)
+
+  (** val pred_double : z -> z **)
+
+  let pred_double = function
+  | Z0 -> Zneg XH
+  | Zpos p -> Zpos (Pos.pred_double p)
+  | Zneg p -> Zneg (XI p)
+
+  (** val pos_sub : positive -> positive -> z **)
+
+  let rec pos_sub x y =
+    match x with
+    | XI p ->
+      (match y with
+       | XI q -> double (pos_sub p q)
+       | XO q -> succ_double (pos_sub p q)
+       | XH -> Zpos (XO p))
+    | XO p ->
+      (match y with
+       | XI q -> pred_double (pos_sub p q)
+       | XO q -> double (pos_sub p q)
+       | XH -> Zpos (Pos.pred_double p))
+    | XH ->
+      (match y with
+       | XI q -> Zneg (XO q)
+       | XO q -> Zneg (Pos.pred_double q)
+       | XH -> Z0)
+
+  (** val add : z -> z -> z **)
+
+  let add x y =
+    match x with
+    | Z0 -> y
+    | Zpos x' ->
+      (match y with
+       | Z0 -> x
+       | Zpos y' -> Zpos (Pos.add x' y')
+       | Zneg y' -> pos_sub x' y')
+    | Zneg x' ->
+      (match y with
+       | Z0 -> x
+       | Zpos y' -> pos_sub y' x'
+       | Zneg y' -> Zneg (Pos.add x' y'))
+
   (** val opp : z -> z **)
 
   let opp = function
   | Z0 -> Z0
   | Zpos x0 -> Zneg x0
   | Zneg x0 -> Zpos x0
+
+  (** val sub : z -> z -> z **)
+
+  let sub m n0 =
+    add m (opp n0)
+
+  (** val mul : z -> z -> z **)
+
+  let mul x y =
+    match x with
+    | Z0 -> Z0
+    | Zpos x' ->
+      (match y with
+       | Z0 -> Z0
+       | Zpos y' -> Zpos (Pos.mul x' y')
+       | Zneg y' -> Zneg (Pos.mul x' y'))
+    | Zneg x' ->
+      (match y with
+       | Z0 -> Z0
+       | Zpos y' -> Zneg (Pos.mul x' y')
+       | Zneg y' -> Zpos (Pos.mul x' y'))
+
+  (** val pow_pos : z -> positive -> z **)
+
+  let pow_pos z0 =
+    Pos.iter (mul z0) (Zpos XH)
+
+  (** val pow : z -> z -> z **)
+
+  let pow x = function
+  | Z0 -> Zpos XH
+  | Zpos p -> pow_pos x p
+  | Zneg _ -> Z0
 
   (** val compare : z -> z -> comparison **)
 
@@ -453,6 +640,13 @@ module Z =
       (match y with
        | Zneg y' -> compOpp (Pos.compare x' y')
        | _ -> Lt)
+
+  (** val leb : z -> z -> bool **)
+
+  let leb x y =
+    match compare x y with
+    | Gt -> false
+    | _ -> true
 
   (** val ltb : z -> z -> bool **)
 
@@ -474,6 +668,26 @@ module Z =
     | Zneg p -> (match y with
                  | Zneg q -> Pos.eqb p q
                  | _ -> false)
+
+  (** val max : z -> z -> z **)
+
+  let max n0 m =
+    match compare n0 m with
+    | Lt -> m
+    | _ -> n0
+
+  (** val min : z -> z -> z **)
+
+  let min n0 m =
+    match compare n0 m with
+    | Gt -> m
+    | _ -> n0
+
+  (** val to_nat : z -> nat **)
+
+  let to_nat = function
+  | Zpos p -> Pos.to_nat p
+  | _ -> O
 
   (** val of_nat : nat -> z **)
 
@@ -504,6 +718,79 @@ module Z =
   | Z0 -> Pos (D0 Nil)
   | Zpos p -> Pos (Pos.to_uint p)
   | Zneg p -> Neg (Pos.to_uint p)
+
+  (** val pos_div_eucl : positive -> z -> z * z **)
+
+  let rec pos_div_eucl a b =
+    match a with
+    | XI a' ->
+      let (q, r) = pos_div_eucl a' b in
+      let r' = add (mul (Zpos (XO XH)) r) (Zpos XH) in
+      if ltb r' b
+      then ((mul (Zpos (XO XH)) q), r')
+      else ((add (mul (Zpos (XO XH)) q) (Zpos XH)), (sub r' b))
+    | XO a' ->
+      let (q, r) = pos_div_eucl a' b in
+      let r' = mul (Zpos (XO XH)) r in
+      if ltb r' b
+      then ((mul (Zpos (XO XH)) q), r')
+      else ((add (mul (Zpos (XO XH)) q) (Zpos XH)), (sub r' b))
+    | XH -> if leb (Zpos (XO XH)) b then (Z0, (Zpos XH)) else ((Zpos XH), Z0)
+
+  (** val div_eucl : z -> z -> z * z **)
+
+  let div_eucl a b =
+    match a with
+    | Z0 -> (Z0, Z0)
+    | Zpos a' ->
+      (match b with
+       | Z0 -> (Z0, a)
+       | Zpos _ -> pos_div_eucl a' b
+       | Zneg b' ->
+         let (q, r) = pos_div_eucl a' (Zpos b') in
+         (match r with
+          | Z0 -> ((opp q), Z0)
+          | _ -> ((opp (add q (Zpos XH))), (add b r))))
+    | Zneg a' ->
+      (match b with
+       | Z0 -> (Z0, a)
+       | Zpos _ ->
+         let (q, r) = pos_div_eucl a' b in
+         (match r with
+          | Z0 -> ((opp q), Z0)
+          | _ -> ((opp (add q (Zpos XH))), (sub b r)))
+       | Zneg b' -> let (q, r) = pos_div_eucl a' (Zpos b') in (q, (opp r)))
+
+  (** val div : z -> z -> z **)
+
+  let div a b =
+    let (q, _) = div_eucl a b in q
+
+  (** val modulo : z -> z -> z **)
+
+  let modulo a b =
+    let (_, r) = div_eucl a b in r
+
+  (** val even : z -> bool **)
+
+  let even = function
+  | Z0 -> true
+  | Zpos p -> (match p with
+               | XO _ -> true
+               | _ -> false)
+  | Zneg p -> (match p with
+               | XO _ -> true
+               | _ -> false)
+
+  (** val log2 : z -> z **)
+
+  let log2 = function
+  | Zpos p0 ->
+    (match p0 with
+     | XI p -> Zpos (Pos.size p)
+     | XO p -> Zpos (Pos.size p)
+     | XH -> Z0)
+  | _ -> Z0
  end
 
 (** val eqb0 : char list -> char list -> bool **)
@@ -1280,7 +1567,7 @@ let rec node_str = function
 
 let rec pretty_str n0 = match n0 with
 | Node (d, l, r) ->
-  let sub = fun c ->
+  let sub0 = fun c ->
     match c with
     | Some x ->
       if is_op x
@@ -1293,9 +1580,9 @@ let rec pretty_str n0 = match n0 with
       else Ok (node_str x)
     | None -> Ok []
   in
-  (match sub l with
+  (match sub0 l with
    | Ok sl ->
-     (match sub r with
+     (match sub0 r with
       | Ok sr ->
         let data = data_label d in
         if is_unique_term n0
@@ -1387,38 +1674,38 @@ let rec simplify_fuel fuel n0 =
   | O -> Err OtherExn
   | S fuel' ->
     let s' = simplify_fuel fuel' in
-    let sub = fun c -> match need c with
-                       | Ok x -> s' x
-                       | Err e -> Err e in
+    let sub0 = fun c -> match need c with
+                        | Ok x -> s' x
+                        | Err e -> Err e in
     let Node (d, l, r) = n0 in
     (match d with
      | DOp o ->
        (match o with
         | REQUIRES ->
-          (match sub l with
+          (match sub0 l with
            | Ok l' ->
-             (match sub r with
+             (match sub0 r with
               | Ok r' -> Ok (bin OR (un NOT l') r')
               | Err e -> Err e)
            | Err e -> Err e)
         | EXCLUDES ->
-          (match sub l with
+          (match sub0 l with
            | Ok l' ->
-             (match sub r with
+             (match sub0 r with
               | Ok r' -> Ok (bin OR (un NOT l') (un NOT r'))
               | Err e -> Err e)
            | Err e -> Err e)
         | AND ->
-          (match sub l with
+          (match sub0 l with
            | Ok l' ->
-             (match sub r with
+             (match sub0 r with
               | Ok r' -> Ok (bin AND l' r')
               | Err e -> Err e)
            | Err e -> Err e)
         | OR ->
-          (match sub l with
+          (match sub0 l with
            | Ok l' ->
-             (match sub r with
+             (match sub0 r with
               | Ok r' -> Ok (bin OR l' r')
               | Err e -> Err e)
            | Err e -> Err e)
@@ -1431,13 +1718,13 @@ let rec simplify_fuel fuel n0 =
               | Err e -> Err e)
            | Err e -> Err e)
         | IMPLIES ->
-          (match sub l with
+          (match sub0 l with
            | Ok l' ->
-             (match sub r with
+             (match sub0 r with
               | Ok r' -> Ok (bin OR (un NOT l') r')
               | Err e -> Err e)
            | Err e -> Err e)
-        | NOT -> (match sub l with
+        | NOT -> (match sub0 l with
                   | Ok l' -> Ok (un NOT l')
                   | Err e -> Err e)
         | EQUIVALENCE ->
@@ -1497,24 +1784,24 @@ let rec to_cnf_fuel fuel n0 =
   | O -> Err OtherExn
   | S fuel' ->
     let c = to_cnf_fuel fuel' in
-    let sub = fun c0 -> match need c0 with
-                        | Ok x -> c x
-                        | Err e -> Err e in
+    let sub0 = fun c0 -> match need c0 with
+                         | Ok x -> c x
+                         | Err e -> Err e in
     let Node (d, l, r) = n0 in
     (match d with
      | DOp o ->
        (match o with
         | AND ->
-          (match sub l with
+          (match sub0 l with
            | Ok l' ->
-             (match sub r with
+             (match sub0 r with
               | Ok r' -> Ok (bin AND l' r')
               | Err e -> Err e)
            | Err e -> Err e)
         | OR ->
-          (match sub l with
+          (match sub0 l with
            | Ok l' ->
-             (match sub r with
+             (match sub0 r with
               | Ok r' ->
                 if data_is AND l'
                 then c
@@ -1705,6 +1992,22 @@ type ctc = { c_name : char list; c_ast : node }
 
 type fm = { root : feature; ctcs : ctc list }
 
+(** val fsize : feature -> nat **)
+
+let rec fsize = function
+| Feature (_, rs) ->
+  S
+    (list_sum
+      (map (fun r -> let Relation (_, _, cs) = r in list_sum (map fsize cs))
+        rs))
+
+(** val subfeatures : feature -> feature list **)
+
+let rec subfeatures f = match f with
+| Feature (_, rs) ->
+  f :: (flat_map (fun r ->
+         let Relation (_, _, cs) = r in flat_map subfeatures cs) rs)
+
 (** val subrelations : feature -> relation list **)
 
 let rec subrelations = function
@@ -1716,6 +2019,11 @@ let rec subrelations = function
 
 let children f =
   flat_map r_children (rels f)
+
+(** val names : feature -> char list list **)
+
+let names f =
+  map name (subfeatures f)
 
 (** val fld : node option -> node result **)
 
@@ -2330,6 +2638,383 @@ let get_excludes_constraints =
 let get_requires_constraints =
   ctc_listing is_requires
 
+(** val eff_max : z -> nat -> z **)
+
+let eff_max mx n0 =
+  if Z.eqb mx (Zneg XH) then Z.of_nat n0 else mx
+
+(** val card_okb : z -> z -> nat -> z -> bool **)
+
+let card_okb mn mx n0 k =
+  (&&) (Z.leb mn k) (Z.leb k (eff_max mx n0))
+
+(** val none_selected : (char list -> bool) -> feature -> bool **)
+
+let rec none_selected _UU03c3_ = function
+| Feature (i, rs) ->
+  (&&) (negb (_UU03c3_ i.f_name))
+    (forallb (fun r ->
+      let Relation (_, _, cs) = r in forallb (none_selected _UU03c3_) cs) rs)
+
+(** val count_sel : (char list -> bool) -> feature list -> z **)
+
+let count_sel _UU03c3_ cs =
+  Z.of_nat (length (filter (fun c -> _UU03c3_ (name c)) cs))
+
+(** val sem : (char list -> bool) -> feature -> bool **)
+
+let rec sem _UU03c3_ = function
+| Feature (i, rs) ->
+  (&&) (_UU03c3_ i.f_name)
+    (forallb (fun r ->
+      let Relation (mn, mx, cs) = r in
+      (&&) (card_okb mn mx (length cs) (count_sel _UU03c3_ cs))
+        (forallb (fun c ->
+          if _UU03c3_ (name c)
+          then sem _UU03c3_ c
+          else none_selected _UU03c3_ c) cs)) rs)
+
+(** val eval : (char list -> bool) -> node -> bool option **)
+
+let rec eval _UU03c3_ = function
+| Node (d, l, r) ->
+  (match d with
+   | DOp o ->
+     (match o with
+      | NOT ->
+        (match l with
+         | Some a ->
+           (match r with
+            | Some b ->
+              (match eval _UU03c3_ a with
+               | Some x ->
+                 (match eval _UU03c3_ b with
+                  | Some y ->
+                    (match o with
+                     | REQUIRES -> Some (implb x y)
+                     | EXCLUDES -> Some (negb ((&&) x y))
+                     | AND -> Some ((&&) x y)
+                     | OR -> Some ((||) x y)
+                     | XOR -> Some (xorb x y)
+                     | IMPLIES -> Some (implb x y)
+                     | EQUIVALENCE -> Some (eqb x y)
+                     | _ -> None)
+                  | None -> None)
+               | None -> None)
+            | None -> option_map negb (eval _UU03c3_ a))
+         | None -> None)
+      | _ ->
+        (match l with
+         | Some a ->
+           (match r with
+            | Some b ->
+              (match eval _UU03c3_ a with
+               | Some x ->
+                 (match eval _UU03c3_ b with
+                  | Some y ->
+                    (match o with
+                     | REQUIRES -> Some (implb x y)
+                     | EXCLUDES -> Some (negb ((&&) x y))
+                     | AND -> Some ((&&) x y)
+                     | OR -> Some ((||) x y)
+                     | XOR -> Some (xorb x y)
+                     | IMPLIES -> Some (implb x y)
+                     | EQUIVALENCE -> Some (eqb x y)
+                     | _ -> None)
+                  | None -> None)
+               | None -> None)
+            | None -> None)
+         | None -> None))
+   | DStr s ->
+     (match l with
+      | Some _ -> None
+      | None -> (match r with
+                 | Some _ -> None
+                 | None -> Some (_UU03c3_ s)))
+   | _ -> None)
+
+(** val valid : fm -> (char list -> bool) -> bool **)
+
+let valid m _UU03c3_ =
+  (&&) (sem _UU03c3_ m.root)
+    (forallb (fun c ->
+      match eval _UU03c3_ c.c_ast with
+      | Some b -> b
+      | None -> false) m.ctcs)
+
+(** val zeros : nat -> bool list **)
+
+let zeros n0 =
+  repeat false n0
+
+(** val prod_app : 'a1 list list -> 'a1 list list -> 'a1 list list **)
+
+let prod_app xs ys =
+  flat_map (fun x -> map (fun y -> app x y) ys) xs
+
+(** val confs : feature -> bool list list **)
+
+let rec confs = function
+| Feature (_, rs) ->
+  map (fun x -> true :: x)
+    (let rec go = function
+     | [] -> [] :: []
+     | r :: rs' ->
+       prod_app
+         (let Relation (mn, mx, cs) = r in
+          map snd
+            (filter (fun kb -> card_okb mn mx (length cs) (fst kb))
+              (let rec goc = function
+               | [] -> (Z0, []) :: []
+               | c :: cs' ->
+                 let rest = goc cs' in
+                 app
+                   (map (fun kb -> ((fst kb),
+                     (app (zeros (fsize c)) (snd kb)))) rest)
+                   (flat_map (fun x ->
+                     map (fun kb -> ((Z.add (fst kb) (Zpos XH)),
+                       (app x (snd kb)))) rest) (confs c))
+               in goc cs))) (go rs')
+     in go rs)
+
+(** val selected_names : feature -> bool list -> char list list **)
+
+let selected_names f bits =
+  map fst (filter snd (combine (names f) bits))
+
+(** val sigma_of : char list list -> char list -> bool **)
+
+let sigma_of sel n0 =
+  list_existsb_eq n0 sel
+
+(** val all_subsets : char list list -> char list list list **)
+
+let rec all_subsets = function
+| [] -> [] :: []
+| x :: xs -> let r = all_subsets xs in app (map (fun x0 -> x :: x0) r) r
+
+(** val valid_selections : fm -> char list list list **)
+
+let valid_selections m =
+  filter (fun sel -> valid m (sigma_of sel)) (all_subsets (names m.root))
+
+(** val div_rne : z -> z -> z **)
+
+let div_rne n0 d =
+  let q = Z.div n0 d in
+  let r = Z.modulo n0 d in
+  if Z.ltb (Z.mul (Zpos (XO XH)) r) d
+  then q
+  else if Z.ltb d (Z.mul (Zpos (XO XH)) r)
+       then Z.add q (Zpos XH)
+       else if Z.even q then q else Z.add q (Zpos XH)
+
+(** val fdiv : z -> z -> z * z **)
+
+let fdiv a b =
+  if Z.eqb a Z0
+  then (Z0, Z0)
+  else let e0 =
+         Z.sub (Z.sub (Z.log2 a) (Z.log2 b)) (Zpos (XO (XO (XI (XO (XI
+           XH))))))
+       in
+       let fl = fun e ->
+         if Z.leb Z0 e
+         then Z.div a (Z.mul b (Z.pow (Zpos (XO XH)) e))
+         else Z.div (Z.mul a (Z.pow (Zpos (XO XH)) (Z.opp e))) b
+       in
+       let e =
+         if Z.ltb (fl e0)
+              (Z.pow (Zpos (XO XH)) (Zpos (XO (XO (XI (XO (XI XH)))))))
+         then Z.sub e0 (Zpos XH)
+         else e0
+       in
+       let m =
+         if Z.leb Z0 e
+         then div_rne a (Z.mul b (Z.pow (Zpos (XO XH)) e))
+         else div_rne (Z.mul a (Z.pow (Zpos (XO XH)) (Z.opp e))) b
+       in
+       (m, e)
+
+(** val scale_round : (z * z) -> z -> z **)
+
+let scale_round me nd =
+  let (m, e) = me in
+  if Z.leb Z0 e
+  then Z.mul (Z.mul m (Z.pow (Zpos (XO (XI (XO XH)))) nd))
+         (Z.pow (Zpos (XO XH)) e)
+  else div_rne (Z.mul m (Z.pow (Zpos (XO (XI (XO XH)))) nd))
+         (Z.pow (Zpos (XO XH)) (Z.opp e))
+
+(** val pyround_div : z -> z -> z -> z **)
+
+let pyround_div a b nd =
+  scale_round (fdiv a b) nd
+
+(** val zprod : z list -> z **)
+
+let zprod l =
+  fold_right Z.mul (Zpos XH) l
+
+(** val zsum : z list -> z **)
+
+let zsum l =
+  fold_right Z.add Z0 l
+
+(** val poly_step : z list -> z -> z list **)
+
+let poly_step coeffs count =
+  map (fun cp -> Z.add (fst cp) (Z.mul count (snd cp)))
+    (combine (app coeffs (Z0 :: [])) (Z0 :: coeffs))
+
+(** val poly : z list -> z list **)
+
+let poly counts =
+  fold_left poly_step counts ((Zpos XH) :: [])
+
+(** val slice : z list -> z -> z -> z list **)
+
+let slice l a b =
+  let n0 = Z.of_nat (length l) in
+  let norm = fun x -> if Z.ltb x Z0 then Z.max Z0 (Z.add x n0) else Z.min x n0
+  in
+  let a' = norm a in
+  let b' = norm b in firstn (Z.to_nat (Z.sub b' a')) (skipn (Z.to_nat a') l)
+
+(** val estimate : feature -> z **)
+
+let rec estimate = function
+| Feature (_, rs) ->
+  (match rs with
+   | [] -> Zpos XH
+   | _ :: _ ->
+     zprod
+       (flat_map (fun r ->
+         let Relation (mn, mx, cs) = r in
+         if rel_is_mandatory r
+         then (match cs with
+               | [] -> Z0
+               | c :: _ -> estimate c) :: []
+         else if rel_is_optional r
+              then (Z.add (match cs with
+                           | [] -> Z0
+                           | c :: _ -> estimate c) (Zpos XH)) :: []
+              else if rel_is_alternative r
+                   then (zsum (map estimate cs)) :: []
+                   else if rel_is_or r
+                        then (Z.sub
+                               (zprod
+                                 (map (fun c -> Z.add (estimate c) (Zpos XH))
+                                   cs)) (Zpos XH)) :: []
+                        else let counts = map estimate cs in
+                             let card_max =
+                               if Z.eqb mx (Zneg XH)
+                               then Z.of_nat (length counts)
+                               else mx
+                             in
+                             (zsum
+                               (slice (poly counts) mn
+                                 (Z.add card_max (Zpos XH)))) :: []) rs))
+
+(** val forces_all : relation -> bool **)
+
+let forces_all r =
+  (||) (rel_is_mandatory r)
+    ((&&) (Z.eqb (r_min r) (nchildren r)) (Z.ltb Z0 (nchildren r)))
+
+(** val core_features : feature -> feature list **)
+
+let rec core_features f = match f with
+| Feature (_, rs) ->
+  f :: (flat_map (fun r ->
+         let Relation (_, _, cs) = r in
+         if forces_all r then flat_map core_features cs else []) rs)
+
+(** val child_is_mandatory : feature -> feature -> bool **)
+
+let child_is_mandatory f c =
+  feat_is_mandatory (Some f) c
+
+(** val closure : feature -> char list list **)
+
+let rec closure c = match c with
+| Feature (i, rs) ->
+  i.f_name :: (flat_map (fun r ->
+                let Relation (_, _, cs) = r in
+                flat_map (fun d ->
+                  if child_is_mandatory c d then closure d else []) cs) rs)
+
+(** val starters : feature -> feature list **)
+
+let rec starters f = match f with
+| Feature (_, rs) ->
+  flat_map (fun r ->
+    let Relation (_, _, cs) = r in
+    flat_map (fun d ->
+      app (if child_is_mandatory f d then [] else d :: []) (starters d)) cs)
+    rs
+
+(** val atomic_sets : fm -> char list list list **)
+
+let atomic_sets m =
+  map closure (m.root :: (starters m.root))
+
+(** val count_leafs : fm -> z **)
+
+let count_leafs m =
+  Z.of_nat (length (filter feat_is_leaf (get_features m)))
+
+(** val leaf_features : fm -> feature list **)
+
+let leaf_features m =
+  filter feat_is_leaf (get_features m)
+
+(** val with_ancestors :
+    feature -> feature list -> (feature * feature list) list **)
+
+let rec with_ancestors f anc =
+  let Feature (_, rs) = f in
+  (f,
+  anc) :: (flat_map (fun r ->
+            let Relation (_, _, cs) = r in
+            flat_map (fun c -> with_ancestors c (f :: anc)) cs) rs)
+
+(** val ancestors_table : fm -> (feature * feature list) list **)
+
+let ancestors_table m =
+  with_ancestors m.root []
+
+(** val max_depth_tree : fm -> z **)
+
+let max_depth_tree m =
+  fold_right Z.max Z0
+    (map (fun fa -> Z.of_nat (length (snd fa)))
+      (filter (fun fa -> feat_is_leaf (fst fa)) (ancestors_table m)))
+
+(** val branch_counts : fm -> z * z **)
+
+let branch_counts m =
+  let fs = filter (fun f -> negb (feat_is_leaf f)) (get_features m) in
+  ((Z.of_nat (length fs)),
+  (zsum (map (fun f -> zsum (map nchildren (rels f))) fs)))
+
+(** val average_branching_factor : fm -> z **)
+
+let average_branching_factor m =
+  let (branches, nchild) = branch_counts m in
+  if Z.eqb branches Z0 then Z0 else pyround_div nchild branches (Zpos (XO XH))
+
+(** val variants : feature -> feature list **)
+
+let variants f =
+  flat_map (fun r -> if rel_is_mandatory r then [] else r_children r) (rels f)
+
+(** val variation_points : fm -> (feature * feature list) list **)
+
+let variation_points m =
+  filter (fun fv -> negb (Nat.eqb (length (snd fv)) O))
+    (map (fun f -> (f, (variants f))) (subfeatures m.root))
+
 (** val e_aval : aval -> sexp **)
 
 let rec e_aval = function
@@ -2495,7 +3180,7 @@ let rec d_node = function
                   | [] ->
                     (match d_ndata d with
                      | Some d' ->
-                       let sub = fun x ->
+                       let sub0 = fun x ->
                          match x with
                          | SAtom _ -> Some None
                          | _ ->
@@ -2503,9 +3188,9 @@ let rec d_node = function
                             | Some n0 -> Some (Some n0)
                             | None -> None)
                        in
-                       (match sub l with
+                       (match sub0 l with
                         | Some l' ->
-                          (match sub r with
+                          (match sub0 r with
                            | Some r' -> Some (Node (d', l', r'))
                            | None -> None)
                         | None -> None)
@@ -3047,6 +3732,44 @@ let op_ctcq n0 =
                                                                    (get_clauses
                                                                     n0)) :: [])) :: []))))))))))))))))))
 
+(** val op_ops : fm -> sexp **)
+
+let op_ops m =
+  e_tag ('o'::('p'::('s'::[])))
+    ((e_tag ('e'::('s'::('t'::('i'::('m'::('a'::('t'::('e'::[]))))))))
+       ((e_z (estimate m.root)) :: [])) :: ((e_tag
+                                              ('c'::('o'::('r'::('e'::[]))))
+                                              ((e_names
+                                                 (core_features m.root)) :: [])) :: (
+    (e_tag ('a'::('t'::('o'::('m'::('i'::('c'::[])))))) ((SList
+      (map (fun s -> SList (map (fun x -> SStr x) s)) (atomic_sets m))) :: [])) :: (
+    (e_tag
+      ('c'::('o'::('u'::('n'::('t'::('_'::('l'::('e'::('a'::('f'::('s'::[])))))))))))
+      ((e_z (count_leafs m)) :: [])) :: ((e_tag
+                                           ('l'::('e'::('a'::('f'::('_'::('f'::('e'::('a'::('t'::('u'::('r'::('e'::('s'::[])))))))))))))
+                                           ((e_names (leaf_features m)) :: [])) :: (
+    (e_tag ('m'::('a'::('x'::('_'::('d'::('e'::('p'::('t'::('h'::[])))))))))
+      ((e_z (max_depth_tree m)) :: [])) :: ((e_tag ('a'::('b'::('f'::[])))
+                                              ((e_z
+                                                 (average_branching_factor m)) :: [])) :: (
+    (e_tag ('a'::('n'::('c'::('e'::('s'::('t'::('o'::('r'::('s'::[])))))))))
+      ((SList
+      (map (fun fa -> SList ((SStr
+        (name (fst fa))) :: ((e_names (snd fa)) :: []))) (ancestors_table m))) :: [])) :: (
+    (e_tag ('v'::('p'::('s'::[]))) ((SList
+      (map (fun fv -> SList ((SStr
+        (name (fst fv))) :: ((e_names (snd fv)) :: []))) (variation_points m))) :: [])) :: [])))))))))
+
+(** val op_sem : fm -> sexp **)
+
+let op_sem m =
+  e_tag ('s'::('e'::('m'::[])))
+    ((e_tag ('v'::('a'::('l'::('i'::('d'::[]))))) ((SList
+       (map (fun s -> SList (map (fun x -> SStr x) s)) (valid_selections m))) :: [])) :: (
+    (e_tag ('c'::('o'::('n'::('f'::('s'::[]))))) ((SList
+      (map (fun b -> SList (map (fun x -> SStr x) (selected_names m.root b)))
+        (confs m.root))) :: [])) :: []))
+
 (** val bad : char list -> sexp **)
 
 let bad msg =
@@ -3083,19 +3806,43 @@ let dispatch = function
                          | Some n' -> op_ctcq n'
                          | None -> bad ('n'::('o'::('d'::('e'::[])))))
                       | _ :: _ -> bad ('a'::('r'::('i'::('t'::('y'::[])))))))
-             else if eqb0 op
-                       ('e'::('c'::('h'::('o'::('_'::('f'::('m'::[])))))))
+             else if eqb0 op ('o'::('p'::('s'::[])))
                   then (match args with
                         | [] -> bad ('a'::('r'::('i'::('t'::('y'::[])))))
                         | m :: l0 ->
                           (match l0 with
                            | [] ->
                              (match d_fm m with
-                              | Some m' -> e_fm m'
+                              | Some m' -> op_ops m'
                               | None -> bad ('f'::('m'::[])))
                            | _ :: _ ->
                              bad ('a'::('r'::('i'::('t'::('y'::[])))))))
-                  else bad
-                         ('u'::('n'::('k'::('n'::('o'::('w'::('n'::(' '::('o'::('p'::[]))))))))))
+                  else if eqb0 op ('s'::('e'::('m'::[])))
+                       then (match args with
+                             | [] -> bad ('a'::('r'::('i'::('t'::('y'::[])))))
+                             | m :: l0 ->
+                               (match l0 with
+                                | [] ->
+                                  (match d_fm m with
+                                   | Some m' -> op_sem m'
+                                   | None -> bad ('f'::('m'::[])))
+                                | _ :: _ ->
+                                  bad ('a'::('r'::('i'::('t'::('y'::[])))))))
+                       else if eqb0 op
+                                 ('e'::('c'::('h'::('o'::('_'::('f'::('m'::[])))))))
+                            then (match args with
+                                  | [] ->
+                                    bad ('a'::('r'::('i'::('t'::('y'::[])))))
+                                  | m :: l0 ->
+                                    (match l0 with
+                                     | [] ->
+                                       (match d_fm m with
+                                        | Some m' -> e_fm m'
+                                        | None -> bad ('f'::('m'::[])))
+                                     | _ :: _ ->
+                                       bad
+                                         ('a'::('r'::('i'::('t'::('y'::[])))))))
+                            else bad
+                                   ('u'::('n'::('k'::('n'::('o'::('w'::('n'::(' '::('o'::('p'::[]))))))))))
       | _ -> bad ('s'::('h'::('a'::('p'::('e'::[])))))))
 | _ -> bad ('s'::('h'::('a'::('p'::('e'::[])))))
